@@ -589,6 +589,11 @@ func (vf *VFlow) callResult(t ssa.Value, idx int, fl uint8, out LabelSet, seen m
 		return
 	}
 	tgs := vf.targets(c)
+	if len(tgs) == 1 && idx == 0 && vf.cx.xsBoolCanonicalisers()[tgs[0]] && len(callArgs(c)) == 1 {
+		// the canonical lexical form of an xs:boolean: says what its argument says (see xsBoolCanonicalisers)
+		vf.walk(callArgs(c)[0], fl, out, seen, depth+1)
+		return
+	}
 	if len(tgs) > 0 {
 		push := len(vf.ctx) < 6
 		saved := vf.ctx
